@@ -172,8 +172,20 @@ Definition trelax1 (t : ltab) (e : nat * nat) : ltab :=
 Definition trelax (ms : list (nat * nat)) (t : ltab) : ltab := fold_left trelax1 ms t.
 Fixpoint titer (n : nat) (ms : list (nat * nat)) (t : ltab) : ltab :=
   match n with 0 => t | S n' => titer n' ms (trelax ms t) end.
+(* the same iteration, stopping as soon as a round changes nothing (ComponentsProofs.titer_fix_eq) *)
+Fixpoint ltab_eqb (a b : ltab) : bool :=
+  match a, b with
+  | [], [] => true
+  | x :: a', y :: b' => Nat.eqb (fst x) (fst y) && Nat.eqb (snd x) (snd y) && ltab_eqb a' b'
+  | _, _ => false
+  end.
+Fixpoint titer_fix (n : nat) (ms : list (nat * nat)) (t : ltab) : ltab :=
+  match n with
+  | 0 => t
+  | S n' => let t' := trelax ms t in if ltab_eqb t' t then t else titer_fix n' ms t'
+  end.
 Definition min_table (keys : list nat) (ms : list (nat * nat)) : ltab :=
-  titer (length keys) ms (map (fun k => (k, k)) keys).
+  titer_fix (length keys) ms (map (fun k => (k, k)) keys).
 Definition spec_table (P : list nat) (reads : list cread) (mb : option (list nat)) (het : option hetmap) : ltab :=
   min_table (keys_of P) (spec_edges P reads mb het).
 
